@@ -314,7 +314,7 @@ Lemma once_enter_spec : forall e st o e' st' need,
 Proof.
   intros e st o e' st' need H; unfold once_enter in H.
   destruct (me e) as [m|]; [|discriminate].
-  destruct (get_obj st o) as [[| | | | | | |s flag mx| |]|]; try discriminate.
+  destruct (get_obj st o) as [[| | | | | | |s flag mx| | | | | ]|]; try discriminate.
   exists m, s, flag, mx. split; [reflexivity|]. split; [reflexivity|].
   destruct s as [| |c].
   - inversion H; subst; auto.
@@ -328,7 +328,7 @@ Lemma once_complete_spec : forall e st o e' st',
 Proof.
   intros e st o e' st' H; unfold once_complete in H.
   destruct (me e) as [m|]; [|discriminate].
-  destruct (get_obj st o) as [[| | | | | | |s flag mx| |]|]; try discriminate.
+  destruct (get_obj st o) as [[| | | | | | |s flag mx| | | | | ]|]; try discriminate.
   destruct (e_increment_clock e m) as [e1|]; [|discriminate].
   destruct (e_clock e1 m) as [c|]; [|discriminate].
   inversion H; subst. exists s, flag, mx, c; auto.
@@ -722,7 +722,7 @@ Theorem once_is_completed_spec : forall e st o e' st' r,
 Proof.
   intros e st o e' st' r H; unfold once_is_completed in H.
   destruct (me e) as [m|]; [|discriminate].
-  destruct (get_obj st o) as [[| | | | | | |s flag mx| |]|]; try discriminate.
+  destruct (get_obj st o) as [[| | | | | | |s flag mx| | | | | ]|]; try discriminate.
   destruct s as [| |c].
   - inversion H; subst; split; [reflexivity|]. exists OnNone, flag, mx; auto.
   - inversion H; subst; split; [reflexivity|]. exists OnRunning, flag, mx; auto.
